@@ -42,7 +42,8 @@ META = {
              'returned K).  SAMPLED on the real code only, no theorem: isofugacity of converged two-phase outputs (tolerance 2e-4), '
              'termination and convergence of the loops, existence of the Rachford-Rice root, stability of one-phase results '
              '(tangent-plane distance at the Wilson gas-like and liquid-like trials, 15 iterates of Michelsen\'s fixed-point map from '
-             'each, 20 random trials; also applied to "two-phase" results with identical phases), placement of a one-phase feed in the '
+             'each, 20 random trials; also applied to "two-phase" results with identical phases and to every one-phase trace variant of a '
+             'stability-decided feed), insensitivity of the phase count to a trace component, placement of a one-phase feed in the '
              'row of the lower-Gibbs-energy root / the gas row for a near-ideal single-root state.  NOT REACHABLE: the warm-start half '
              'of the quantifier — dbm.py l.2577 `isinstance(np.sum(K_0), type(np.nan))` is True for every float array, so a supplied K '
              'is always replaced by the Wilson estimate; a few probes per run record this, they are not counted as coverage.  '
@@ -59,7 +60,12 @@ RULE = ('phase-split solve: n = 1..7, z Dirichlet(0.2|1|3) (10% with an exact ze
         '(60% forced to contain a light gas and a heavier compound), Dirichlet mass fractions, exact zero masses with probability '
         '0.15 per component in half of the feeds, total mass log-uniform 1e-6..1e2 kg, T uniform 270-420 K, P log-uniform (70%) or '
         'uniform 1e5-5e7 Pa; targeted feeds in the same pipeline: pure compounds, dense supercritical mixtures of O2/Ar/N2/CO/CH4 at '
-        '2-50 MPa, hydrogen-rich feeds at 10-50 MPa, states on both sides of a phase boundary (bisection in P); regression search: '
+        '2-50 MPa, hydrogen-rich feeds at 10-50 MPa, states on both sides of a phase boundary (bisection in P), feeds whose outcome '
+        'is DECIDED by the stability analysis (24-step pressure ladders 8-50 MPa at fixed composition, CO2/N2/alkane at 290-320 K and '
+        'light-gas/heavier mixtures at 270-420 K; the two-phase states during which stability_analysis was called, +-1.5% in P) and '
+        'their TRACE variants (one extra database compound at 1e-10..1e-6 of the feed mass; one existing component scaled down to '
+        'that level, with the feed without it as reference), compared metamorphically (same phase count, |delta beta| <= 0.05 when the '
+        'reference has 0.02 <= beta <= 0.98); regression search: '
         'feeds whose first component has K = 1 (bisection in P).  Floors on every outcome class are obligations.  A case is '
         'non-trivial when it is distinct (composition, masses, T, P rounded to 12 digits)')
 LEVEL_NOTE = ('theorems over the reals about a hand-written model of the flash orchestration, tied to /repo by value '
@@ -559,6 +565,10 @@ def gen_feeds(ctx):
     # near-ideal gas mixture returned as two identical phases (found by the random search; known finding ideal-gas-partly-in-liquid-row)
     jobs.append({'composition': ['oxygen', 'carbon_monoxide'], 'm': [5.776686808454653e-05, 4.739849259855361e-05],
                  'T': 351.09204744282795, 'P': 641198.893777722, 'K0': None, 'tag': 'supercritical'})
+    # unstable feed reported as one phase, no hydrogen (found by the pressure-ladder search; same mechanism as the hydrogen-rich one below)
+    jobs.append({'composition': ['carbon_monoxide', 'carbon_dioxide', 'sulfure_dioxide'],
+                 'm': [0.0013142110328569028, 0.0007748305974074905, 0.0005505485573648101], 'T': 276.42880859711073, 'P': 36899640.11949039,
+                 'K0': None, 'tag': 'supercritical'})
     # hydrogen-rich feeds at high pressure (the fixed one was found by the random search: reported as one phase, unstable)
     jobs.append({'composition': ['neohexane', 'n-decane', 'n-hexane', 'hydrogen', 'hydrogen_sulfide'],
                  'm': [0.14833924978240257, 0.014147196942160328, 0.5268357381769898, 0.9705940146954938, 1.3586451787102498],
@@ -597,7 +607,7 @@ def _key(c):
 def _pool_map(ctx, jobs, budget):
     """evaluate feeds on the real code; several processes (the flash is pure Python)"""
     seeds = [ctx.rng.randrange(1 << 30) for _ in jobs]
-    payload = [(j, budget, s) for j, s in zip(jobs, seeds)]
+    payload = [({k: v for k, v in j.items() if k != 'ref'}, budget, s) for j, s in zip(jobs, seeds)]
     nproc = int(os.environ.get('VERIF_PROCS', '0') or 0) or min(8, max(1, (os.cpu_count() or 2) // 2))
     if nproc <= 1 or len(payload) < 8:
         return [eval_feed(p) for p in payload]
@@ -697,6 +707,8 @@ def check_feed(ctx, res, lines, line_owner):
         ctx.violation('zero-component-not-zero', 'a zero-mass component of the feed has mass or mole fraction in a phase', dict(case, masses=mm.tolist(), xi=xi.tolist()))
     if np.any(xi < 0.) or np.any(xi > 1. + 1e-12):
         ctx.violation('mole-fraction-out-of-range', 'a returned mole fraction is outside [0,1]', dict(case, xi=xi.tolist()))
+    if rec.get('n_sa', 0) > 0:
+        ctx.count('flash:stability-decided:' + ('two-phase' if res['two'] else 'single-phase'))
     if res['two']:
         ctx.count('flash:two-phase')
         if np.any(np.isnan(K)):
@@ -812,7 +824,9 @@ def single_phase_clauses(ctx, res, case, row):
             signature = sig.get('phases') == 2 and sig.get('dG') is not None and sig['dG'] < 0.
             specific = signature and zh >= 0.5 and c['P'] >= 3e7
             ctx.count('flash:negative-tpd:' + ('signature-wilson-start-finds-split' if signature else 'no-signature'))
-            ctx.violation('unstable-single-phase-hydrogen-rich-high-pressure' if specific else 'negative-tangent-plane-distance',
+            key = ('unstable-single-phase-hydrogen-rich-high-pressure' if specific else
+                   'unstable-single-phase-stability-test-started-from-drifted-K' if signature else 'negative-tangent-plane-distance')
+            ctx.violation(key,
                           'a trial composition has a negative tangent-plane distance from a feed reported as one phase',
                           dict(case, row=row, tpd=t['min'], trial=t['arg'], wilson_started_stability_analysis=sig))
 
@@ -852,11 +866,157 @@ def boundary_feeds(ctx):
     return jobs
 
 
+STAB_BETA_MARGIN = 0.02   # a base feed counts as "away from a phase boundary" when 0.02 <= beta <= 0.98
+TRACE_BETA_TOL = 5e-2     # allowed change of beta under a trace perturbation (<= 1e-6 of the feed mass): dominated by the flash's own
+                          # stopping tolerance near critical states, not by continuity: measured on the unchanged tree over 1024 pairs of
+                          # the thorough tier the worst difference is 0.0132 (55 pairs above 2e-3); the tolerance is about 4 x that
+
+
+def scan_worker(job):
+    """one composition, a ladder of pressures: which states are two-phase AND were decided by the stability analysis (the
+    recorder of stability_analysis saw a call during that flash)?  Light: no predicates here, the states found are re-run in full"""
+    warnings.simplefilter('ignore')
+    _install_recorders()
+    names, m, T, Ps, budget = job
+    fm = _fm(names)
+    out = []
+    for P in Ps:
+        rec = {'n_ss': 0, 'n_sa': 0, 'n_gle': 0, 'last': None}
+        _W['rec'] = rec
+        try:
+            with np.errstate(all='ignore'):
+                mm = call_with_budget(lambda: fm.equilibrium(np.array(m), T, P), budget)[0]
+            two = bool(np.all(np.isfinite(mm)) and np.sum(mm[0]) > 0. and np.sum(mm[1]) > 0.)
+            out.append((P, two, rec['n_sa'], rec['mm']['beta'] if rec.get('mm') else None))
+        except _Timeout:
+            out.append((P, None, None, None))
+        except Exception:          # reported by the full run of the same feed family, not here
+            out.append((P, None, None, None))
+        finally:
+            _W['rec'] = None
+    return out
+
+
+def stability_decided_feeds(ctx):
+    """targeted generation of feeds whose outcome is DECIDED by the stability analysis (successive substitution from the Wilson
+    start collapses to beta = 0 or 1, the stability test finds the instability): pressure ladders 8-50 MPa at fixed composition,
+    seed family CO2 / N2 / alkane at 290-320 K plus light-gas / heavier-compound mixtures at 270-420 K.  Returns ordinary flash
+    jobs for the states found (plus two neighbours in P each)."""
+    r = ctx.rng
+    pool = scen_mix.nonaqueous(EXCLUDE)
+    heavier = [c for c in pool if c not in scen_mix.LIGHT]
+    ladders = []
+    for k in range(ctx.n(240, 2400)):
+        if k % 2 == 0:
+            names = ['carbon_dioxide', 'nitrogen', r.choice(['n-hexane', 'n-pentane', 'n-heptane', 'n-butane', 'isopentane', 'n-decane'])]
+            T = r.uniform(290., 320.)
+        else:
+            names = (r.sample(['nitrogen', 'methane', 'carbon_monoxide', 'oxygen', 'argon', 'carbon_dioxide', 'ethane'], r.randint(1, 2))
+                     + r.sample(heavier, r.randint(1, 2)))
+            T = r.uniform(270., 420.)
+        r.shuffle(names)
+        Ps = [float(x) for x in np.exp(np.linspace(math.log(8e6), math.log(5e7), 24))]
+        ladders.append((names, scen_mix.feed_masses(r, len(names), 1e-3, 1e0, alpha=3.0), T, Ps, 1.0))
+    nproc = int(os.environ.get('VERIF_PROCS', '0') or 0) or min(8, max(1, (os.cpu_count() or 2) // 2))
+    import multiprocessing as mp
+    with mp.get_context('fork').Pool(nproc) as pool_:
+        scans = pool_.map(scan_worker, ladders, chunksize=4)
+    jobs = []
+    for (names, m, T, Ps, _b), sc in zip(ladders, scans):
+        for P, two, nsa, beta in sc:
+            ctx.count('stability-ladder:states')
+            if two and nsa:
+                ctx.count('stability-ladder:two-phase-decided-by-stability-analysis')
+                for f in (1.0, 0.985, 1.015):
+                    jobs.append({'composition': names, 'm': m, 'T': T, 'P': min(5e7, P * f), 'K0': None, 'tag': 'stability-decided'})
+    return jobs
+
+
+def _stability_decided(res):
+    return res['status'] == 'ok' and res['rec'].get('n_sa', 0) > 0
+
+
+def trace_variant_jobs(ctx, results):
+    """for every two-phase result that the stability analysis decided (away from a phase boundary): (a) the same feed plus ONE extra
+    database compound at a mass fraction 1e-10..1e-6, (b) the same feed with one existing component scaled down to such a trace,
+    together with its reference (that component removed)"""
+    r = ctx.rng
+    pool = scen_mix.nonaqueous(EXCLUDE)
+    bases = [x for x in results if _stability_decided(x) and x.get('two') and not x.get('trivial')
+             and STAB_BETA_MARGIN <= x['rec']['mm']['beta'] <= 1. - STAB_BETA_MARGIN and len(x['case']['composition']) < 7]
+    r.shuffle(bases)
+    jobs = []
+    for b in bases[:ctx.n(40, 800)]:
+        c = b['case']
+        m = list(c['m'])
+        tot = sum(m)
+        extra = r.choice([x for x in pool if x not in c['composition']])
+        jobs.append({'composition': c['composition'] + [extra], 'm': m + [tot * 10 ** r.uniform(-10., -6.)], 'T': c['T'], 'P': c['P'], 'K0': None,
+                     'tag': 'trace-added', 'ref': b})
+        pos = [i for i, x in enumerate(m) if x > 0.]
+        if len(pos) >= 3:
+            j = r.choice(pos)
+            m0 = list(m)
+            m0[j] = 0.
+            m1 = list(m)
+            m1[j] = (tot - m[j]) * 10 ** r.uniform(-10., -6.)
+            ref = {'composition': c['composition'], 'm': m0, 'T': c['T'], 'P': c['P'], 'K0': None, 'tag': 'trace-reference'}
+            jobs.append(ref)
+            jobs.append({'composition': c['composition'], 'm': m1, 'T': c['T'], 'P': c['P'], 'K0': None, 'tag': 'trace-scaled', 'ref_job': len(jobs) - 1})
+    return jobs
+
+
+def trace_metamorphic(ctx, trace_results):
+    """a component present at <= 1e-6 of the feed mass cannot change the number of phases of a feed that is away from a phase
+    boundary, nor move its gas fraction by more than the flash tolerance"""
+    worst = 0.
+    for i, res in enumerate(trace_results):
+        c = res['case']
+        if c['tag'] == 'trace-added':
+            ref = c['ref']
+        elif c['tag'] == 'trace-scaled':
+            ref = trace_results[c['ref_job']]
+        else:
+            continue
+        if res['status'] != 'ok' or ref['status'] != 'ok':
+            ctx.count('flash:trace-pair:not-evaluated(time budget)')
+            continue
+        if not (ref.get('two') and not ref.get('trivial') and np.all(np.isfinite(ref['mm']))
+                and STAB_BETA_MARGIN <= ref['rec']['mm']['beta'] <= 1. - STAB_BETA_MARGIN):
+            ctx.count('flash:trace-pair:reference-not-two-phase-or-near-boundary(skipped)')
+            continue
+        ctx.count('flash:trace-pair:compared')
+        if _stability_decided(ref):
+            ctx.count('flash:trace-pair:compared(reference decided by the stability analysis)')
+        rc = ref['case']
+        case = {'composition': c['composition'], 'm': c['m'], 'T': c['T'], 'P': c['P'], 'K0': None,
+                'reference_feed': {'composition': rc['composition'], 'm': rc['m']}, 'reference_beta': ref['rec']['mm']['beta'],
+                'stability_analysis_calls': res['rec'].get('n_sa'), 'stability_analysis_last_phases': res['rec'].get('sa_phases')}
+        if not np.all(np.isfinite(res['mm'])):
+            continue
+        if not res.get('two') or res.get('trivial'):
+            ctx.violation('trace-component-changes-phase-count', 'a feed reported as two phases is reported as ONE phase when a component is present at '
+                          '<= 1e-6 of the feed mass (reference away from a phase boundary)', dict(case, masses=res['mm']))
+            continue
+        db = abs(res['rec']['mm']['beta'] - ref['rec']['mm']['beta'])
+        worst = max(worst, db)
+        if not db <= TRACE_BETA_TOL:
+            ctx.violation('trace-component-moves-gas-fraction', 'a component at <= 1e-6 of the feed mass moves the gas fraction by more than %g' % TRACE_BETA_TOL,
+                          dict(case, beta=res['rec']['mm']['beta']))
+    ctx.notes.append('trace variants: worst |beta(with trace) - beta(reference)| = %.3g (tolerance %g)' % (worst, TRACE_BETA_TOL))
+
+
 def run_flash(ctx, lean_ok, dbm):
     budget = ctx.n(2.0, 5.0)
-    jobs = gen_feeds(ctx) + boundary_feeds(ctx)
+    jobs = gen_feeds(ctx) + boundary_feeds(ctx) + stability_decided_feeds(ctx)
     t0 = time.time()
     results = _pool_map(ctx, jobs, budget)
+    # feeds whose outcome was DECIDED by the stability analysis, and their trace variants (metamorphic test)
+    trace_jobs = trace_variant_jobs(ctx, results)
+    trace_results = _pool_map(ctx, trace_jobs, budget)
+    for j, x in zip(trace_jobs, trace_results):
+        x['case'] = j
+    results = results + trace_results
     # warm-start PROBE (not coverage): dbm.equil_MM l.2577 tests `isinstance(np.sum(K_0), type(np.nan))`, which is True for every
     # float array, so a supplied K is always replaced by the Wilson estimate and the warm-start clause of the quantifier is
     # unreachable.  A few feeds are re-run with the K the code returned at a neighbouring state; the K that reaches the first
@@ -894,6 +1054,7 @@ def run_flash(ctx, lean_ok, dbm):
     slow = []
     worst_iso = 0.
     nsamp = 0
+    trace_metamorphic(ctx, trace_results)
     for res in results + warm_counted:
         kind = check_feed(ctx, res, lines, owner)
         if kind == 'slow':
@@ -928,6 +1089,12 @@ def run_flash(ctx, lean_ok, dbm):
     ctx.oblige('floors: at least one trivial two-phase result (identical phases) put through the single-phase clauses, at least 200 '
                'tangent-plane trial compositions evaluated', h.get('flash:trivial-two-phase(x_gas == x_liq within 1e-12)', 0) >= 1 and h.get('flash:tpd-trials', 0) >= 200,
                'trivial=%r tpd-trials=%r' % (h.get('flash:trivial-two-phase(x_gas == x_liq within 1e-12)', 0), h.get('flash:tpd-trials', 0)))
+    ctx.oblige('floors: at least %d two-phase results DECIDED by the stability analysis, at least %d single-phase ones, at least %d trace-variant '
+               'pairs compared' % (ctx.n(25, 400), ctx.n(25, 400), ctx.n(20, 300)),
+               h.get('flash:stability-decided:two-phase', 0) >= ctx.n(25, 400) and h.get('flash:stability-decided:single-phase', 0) >= ctx.n(25, 400)
+               and h.get('flash:trace-pair:compared', 0) >= ctx.n(20, 300),
+               'two-phase=%r single-phase=%r pairs=%r' % (h.get('flash:stability-decided:two-phase', 0), h.get('flash:stability-decided:single-phase', 0),
+                                                          h.get('flash:trace-pair:compared', 0)))
     ctx.oblige('floors: at most 4%% of the equilibrium calls dropped for exceeding the %.1f s budget (%d of %d)' % (budget, len(slow), nall),
                len(slow) <= 0.04 * nall, '%d of %d' % (len(slow), nall))
     # ---- correspondence through the driver ---------------------------------------------------------------------------
